@@ -5,7 +5,7 @@
 (*                                                                            *)
 (* INTERFACE (stable; used by C01 C02 C03 C04 C09 C10 C17):                   *)
 (*   Decode(bytes, mode)  bytes: sequence of 0..255, mode = 32.               *)
-(*     -> [ok |-> FALSE, why |-> "trunc"|"unknown"|"invalid"|"toolong"]       *)
+(*     -> [ok |-> FALSE, why |-> "trunc"|"unknown"|"invalid"|"toolong", ...]  *)
 (*     -> [ok |-> TRUE, len, mn, ops, pfx, os, as, use, at, opc]              *)
 (*        len  number of bytes of the instruction (prefixes included)         *)
 (*        mn   SDM mnemonic, lower case (far forms: "callf"/"jmpf")           *)
@@ -56,7 +56,10 @@ ModrmAM == {"E","G","R","T"}
 OpsNeedModrm(ops) == \E j \in 1..Len(ops) : OCof(ops[j]).am \in ModrmAM
 
 \* ------------------------------------------------------------------ decode
-Fail(w) == [ok |-> FALSE, why |-> w]
+Fail(w) == [ok |-> FALSE, why |-> w, need |-> "", nb |-> 0, early |-> FALSE, as |-> 32, esc |-> FALSE]
+\* truncated input: which field comes next (for the generator IA32Space), how many bytes, whether the ModRM byte
+\* selects the row (group / mod-split / x87), address size
+Trunc(f, k, e, a, x) == [ok |-> FALSE, why |-> "trunc", need |-> f, nb |-> k, early |-> e, as |-> a, esc |-> x]
 Decode(bs, mode) ==
   LET n    == Len(bs)
       p0   == ScanPfx(bs, 1)
@@ -66,13 +69,13 @@ Decode(bs, mode) ==
       seg  == LastSeg(pfx, Len(pfx))
       rep  == LastRep(pfx, Len(pfx))
       mpi  == IF rep = 243 THEN 3 ELSE IF rep = 242 THEN 4 ELSE IF os = 16 THEN 2 ELSE 1
-  IN IF p0 > n THEN Fail("trunc") ELSE
+  IN IF p0 > n THEN Trunc("opcode", 1, FALSE, as, FALSE) ELSE
   LET b1   == bs[p0]
       esc2 == b1 = 15
-  IN IF esc2 /\ p0 + 1 > n THEN Fail("trunc") ELSE
+  IN IF esc2 /\ p0 + 1 > n THEN Trunc("opcode2", 1, FALSE, as, FALSE) ELSE
   LET b2   == IF esc2 THEN bs[p0 + 1] ELSE 0
       esc3 == esc2 /\ b2 \in {56, 58}
-  IN IF esc3 /\ p0 + 2 > n THEN Fail("trunc") ELSE
+  IN IF esc3 /\ p0 + 2 > n THEN Trunc("opcode3", 1, FALSE, as, FALSE) ELSE
   LET b3   == IF esc3 THEN bs[p0 + 2] ELSE 0
       map  == IF ~esc2 THEN "1" ELSE IF ~esc3 THEN "0F" ELSE IF b2 = 56 THEN "38" ELSE "3A"
       opb  == IF ~esc2 THEN b1 ELSE IF ~esc3 THEN b2 ELSE b3
@@ -84,7 +87,7 @@ Decode(bs, mode) ==
       isesc == row0.g = "ESC"
       pm   == p0 + nopc                                   \* position of the ModRM byte, if any
       early == isesc \/ LooksAtModrm(row0, mpi)
-  IN IF early /\ pm > n THEN Fail("trunc") ELSE
+  IN IF early /\ pm > n THEN Trunc("modrm", 1, TRUE, as, isesc) ELSE
   LET mb   == IF pm <= n THEN bs[pm] ELSE 0
       mod  == mb \div 64
       reg  == (mb \div 8) % 8
@@ -95,14 +98,14 @@ Decode(bs, mode) ==
       ops  == IF "own" \in leaf.at THEN leaf.ops ELSE res.bops \o leaf.ops
   IN IF leaf.g # "" \/ leaf.mn = "" THEN Fail("unknown") ELSE
   LET mr   == early \/ OpsNeedModrm(ops)
-  IN IF mr /\ pm > n THEN Fail("trunc") ELSE
+  IN IF mr /\ pm > n THEN Trunc("modrm", 1, FALSE, as, FALSE) ELSE
   LET oc(j) == OCof(ops[j])
       \* is the r/m operand a memory reference?
       hasE   == \E j \in 1..Len(ops) : oc(j).am = "E"
       ismem  == mr /\ hasE /\ mod # 3
       hasSib == ismem /\ as = 32 /\ rm = 4
       p2     == IF mr THEN pm + 1 ELSE pm
-  IN IF hasSib /\ p2 > n THEN Fail("trunc") ELSE
+  IN IF hasSib /\ p2 > n THEN Trunc("sib", 1, early, as, isesc) ELSE
   LET sib  == IF hasSib THEN bs[p2] ELSE 0
       ss   == sib \div 64   si == (sib \div 8) % 8   sb == sib % 8
       p3   == IF hasSib THEN p2 + 1 ELSE p2
@@ -111,7 +114,7 @@ Decode(bs, mode) ==
                                     ELSE IF rm = 5 THEN 4 ELSE IF hasSib /\ sb = 5 THEN 4 ELSE 0)
               ELSE (IF mod = 1 THEN 1 ELSE IF mod = 2 THEN 2 ELSE IF rm = 6 THEN 2 ELSE 0)
       p4   == p3 + dlen
-  IN IF p4 - 1 > n THEN Fail("trunc") ELSE
+  IN IF p4 - 1 > n THEN Trunc("disp", dlen, early, as, isesc) ELSE
   LET aw   == as \div 8
       draw == SubSeq(bs, p3, p4 - 1)
       disp == IF dlen = 0 THEN ZeroL(aw) ELSE IF dlen = 1 THEN SExtB(draw[1], aw) ELSE draw
@@ -136,7 +139,7 @@ Decode(bs, mode) ==
       RECURSIVE ImmOff(_)
       ImmOff(j) == IF j = 0 THEN 0 ELSE ilen(j) + ImmOff(j - 1)
       total == p4 - 1 + ImmOff(Len(ops))
-  IN IF total > n THEN Fail("trunc") ELSE IF total > 15 THEN Fail("toolong") ELSE
+  IN IF total > n THEN Trunc("imm", total - (p4 - 1), early, as, isesc) ELSE IF total > 15 THEN Fail("toolong") ELSE
   LET opnd(j) == LET c == oc(j)  at == p4 + ImmOff(j - 1)  w == ilen(j) IN
          CASE c.am = "E"  -> (IF mod = 3 THEN RegOp(c.rc, rm) ELSE mem(c))
            [] c.am = "R"  -> RegOp(c.rc, rm)
